@@ -223,7 +223,7 @@ def run(tier, seed, replay=None):
             q = QV[: max([QV.index(v) for v in used] + [0]) + 1]
             cx = {"member": count_member, "member1": count_member1}.get(rel)
             cases.append(mk_case([], q, [["lib", rel] + args], maxans=30, budget=700, rel=rel, args=args, count_exact=cx, listvars=sorted(listvars)))
-    return pcheck.run_check("C24", tier, seed, cases, "exact", oracle, cone=["Proofs/EngineProofs.vo", "Gen/RelDefs.vo", "Proofs/SemProofs.vo", "Proofs/MonoProofs.vo", "Proofs/RelSound.vo", "Proofs/RelSound2.vo", "Proofs/LibComplete.vo"], replay=replay,
+    return pcheck.run_check("C24", tier, seed, cases, "exact", oracle, cone=["Proofs/EngineProofs.vo", "Gen/RelDefs.vo", "Proofs/SemProofs.vo", "Proofs/MonoProofs.vo", "Proofs/RelSound.vo", "Proofs/RelSound2.vo", "Proofs/LibComplete.vo", "Proofs/LibCor.vo"], replay=replay,
         rule="for each of member, member1, append, rember, permute, distinct, cons, first, rest, empty: random argument modes (each argument "
              "ground, partially ground with query variables inside, improper with a variable tail, or a fresh query variable) over lists of "
              "length <= 3 with repeats; the instances (over a universe of 3 atoms and 7 lists) covered by the answers must equal the "
